@@ -159,6 +159,8 @@ def lattice_family(tier, seed=0):
         ('1x4', 1, 4, (), ()),
         ('4x1', 4, 1, (), ()),
         ('1x1', 1, 1, (), ()),
+        ('12x1', 12, 1, (), ()),       # long axes: round-off of the spacing accumulates with the bin index
+        ('1x12', 1, 12, (), ()),
     ]
     if tier == 'quick':
         combos = [(0.1, (-125.4, 33.3)), (0.5, (165.5, -47.5))]
